@@ -158,8 +158,16 @@ def gen_case(ctx, krylov, present=()):
     # the Krylov rule no longer returns (t/|t|, |t|) (flag krylov_slogdet_abs_of_trace absent); Lanczos needs self-adjoint ones
     g = C.RGen(r, krylov=("general" if (kname == "arnoldi" and "krylov_slogdet_abs_of_trace" not in present) else krylov))
     g.wrap_p = 0.35 if kname == "arnoldi" else 0.17
-    g.wide = wide = (not krylov) and r.random() < 0.3   # Cholesky / LU / structural rules on badly scaled and ill-conditioned data
+    g.extreme = extreme = (not krylov) and r.random() < 0.08   # determinants outside the dtype's range, logabs perfectly representable
+    g.wide = wide = extreme or ((not krylov) and r.random() < 0.3)   # Cholesky / LU / structural rules on badly scaled and ill-conditioned data
     t = g.tree(r.choice([0, 1, 1, 2, 2, 2, 3] if ctx.tier != "thorough" else [0, 1, 2, 2, 3, 3, 4]), None, cplx, maxn=4)
+    if (not krylov) and r.random() < 0.12:
+        # a lazy .H / Adjoint over a structured complex operator (Kronecker, BlockDiag, Product, Diagonal, Sum ...), at top level or as a factor
+        gw = C.RGen(r)
+        inner = gw.tree(r.choice([1, 1, 2]), None, True, maxn=4)
+        w = dict(k="Wrap", w="H", via=r.choice(["ctor", "attr"]), a=inner, psd=False)
+        t = w if r.random() < 0.5 else dict(k="Prod", via=r.choice(["ctor", "matmul"]), ms=[w, gw.tree(1, C.rsize(inner), True)][::r.choice([1, -1])])
+        wide = extreme = False
     if krylov:
         name = kname
     else:
@@ -167,7 +175,7 @@ def gen_case(ctx, krylov, present=()):
         if any("+tiny" in k for k in C.rkinds(t)):   # PSD nodes at tiny scale: mostly through the Cholesky base case (explicitly or chosen by Auto)
             name = r.choice(["auto", "auto", "chol", "chol", "lu"])
     trace = r.choice(["exact", "auto"])
-    return dict(recipe=t, alg=name, trace=trace, tol=(r.choice([None, None, None, 1e-8, 1e-10]) if krylov else None), wide=wide)
+    return dict(recipe=t, alg=name, trace=trace, tol=(r.choice([None, None, None, 1e-8, 1e-10]) if krylov else None), wide=wide, extreme=bool(extreme))
 
 
 def tol_of(recipe, logabs, case=None):
@@ -205,10 +213,13 @@ def run_impl(case):
 
 def coq_obs(raised, real, sign, logabs, tolm, tols):
     if raised:
-        return "(mkobs true true qi0 0%Qc 0%Z 0%Qc 0%Qc)"
-    el = float(np.exp(np.float64(logabs)))
+        return "(mkobs true true qi0 0%Qc 0%Z 0%Z 0%Qc 0%Qc)"
+    if not np.isfinite(logabs):   # nan / +-inf: no magnitude at all; a sentinel that no positive rational matches
+        return (f"(mkobs false {'true' if real else 'false'} {C.qi_lit(sign if np.isfinite(sign) else 0)} 0%Qc 0%Z 0%Z {C.qc_lit(tolm)} {C.qc_lit(tols)})")
+    k = int(round(float(logabs) / math.log(2)))
+    el = float(np.exp(np.float64(logabs) - k * np.float64(math.log(2))))
     lsgn = 1 if logabs > 0 else (-1 if logabs < 0 else 0)
-    return (f"(mkobs false {'true' if real else 'false'} {C.qi_lit(sign)} {C.qc_lit(el)} ({lsgn})%Z {C.qc_lit(tolm)} {C.qc_lit(tols)})")
+    return (f"(mkobs false {'true' if real else 'false'} {C.qi_lit(sign)} {C.qc_lit(el)} ({k})%Z ({lsgn})%Z {C.qc_lit(tolm)} {C.qc_lit(tols)})")
 
 
 def coq_flags(present):
@@ -263,8 +274,16 @@ def run(ctx):
         if N == 0 or N > 12:
             continue
         D = C.dense(c["recipe"])
-        c["condD"] = float(np.linalg.cond(D))
-        if not (c.get("wide") or c["condD"] <= (1e13 if kry == "graded" else 1e5)) or not abs(np.linalg.slogdet(D)[1]) < 600:
+        if not np.all(np.isfinite(D)):
+            continue
+        try:
+            with np.errstate(all="ignore"):
+                c["condD"] = float(np.linalg.cond(D))
+        except np.linalg.LinAlgError:
+            if not c.get("wide"):
+                continue
+            c["condD"] = float("inf")
+        if not (c.get("wide") or c["condD"] <= (1e13 if kry == "graded" else 1e5)) or not abs(np.linalg.slogdet(D)[1]) < 2e4:
             continue
         o = run_impl(c)
         if "skip" in o:
@@ -310,6 +329,13 @@ def run(ctx):
             continue
         rec["impl_ok"] = True
         s, l = o["sign"], o["logabs"]
+        if not (np.isfinite(s) and np.isfinite(l)):
+            rec["kskip"] = True
+            if not (kry and "lanczos_exact_trace_uneven_breakdown_nan" in present and c["alg"] == "lanczos"
+                    and any(d.get("uneven") for d in C.decs(o["model"]) if d["which"] == "kry")):
+                mism.append(dict(oracle_fail=True, case=c, got=dict(sign=str(s), logabs=str(l)), expected=rec["oracle"],
+                                 what="sign / logabs is not finite on a non-singular operator whose log-determinant is representable"))
+            continue
         tol_l, tol_s, f32 = tol_of(c["recipe"], l.real, c)
         if kry:
             tol_l, tol_s = max(tol_l, 1e-6 * max(1, abs(l.real))), max(tol_s, 1e-6)
@@ -517,6 +543,8 @@ def run(ctx):
                    wrapped_krylov_cases=sum(1 for c in cases if c["alg"] in ("lanczos", "arnoldi") and any(k.startswith("Wrap:") for k in C.rkinds(c["recipe"]))),
                    tiny_scale_psd_nodes=sum(1 for c in cases for k in C.rkinds(c["recipe"]) if "+tiny" in k),
                    tiny_scale_cases_by_alg={a: sum(1 for c in cases if c["alg"] == a and any("+tiny" in k for k in C.rkinds(c["recipe"]))) for a in ("auto", "chol", "lu")},
+                   extreme_scale_cases=sum(1 for c in cases if c.get("extreme")),
+                   determinant_outside_dtype_range=sum(1 for c, r_ in zip(cases, info) if abs(r_["oracle"][1]) > (87 if any(d in ("float32", "complex64") for d in C.rdts(c["recipe"])) else 708)),
                    wide_regime_cases=len(wide_cases), wide_regime_max_node_cond=max([c["condN"] for c in wide_cases] + [0]),
                    max_abs_logabs=max(abs(r_["oracle"][1]) for r_ in info), min_logabs=min(r_["oracle"][1] for r_ in info),
                    graded_cond_log10_histogram={str(k): sum(1 for c in grad_cases if int(math.log10(c["graded"])) == k) for k in range(1, 11)},
